@@ -174,6 +174,16 @@ class HookedConverter(Converter):
         return ident_hook(standard_prefix, identifier)
 
 
+class FoldingConverter(Converter):
+    """A subclass whose prefix standardisation ignores case (everything that standardises a prefix must go through it)."""
+
+    def standardize_prefix(self, prefix, *, strict=False, passthrough=False):
+        for k, v in self.synonym_to_prefix.items():
+            if k.casefold() == prefix.casefold():
+                return v
+        return super().standardize_prefix(prefix, strict=strict, passthrough=passthrough)
+
+
 def build_shared_list(mrecs, delimiter=":"):
     """Two converters are built from ONE list object; the second one and the caller's list are modified afterwards.
     Returns the first converter: it must be unaffected (its records are its own)."""
